@@ -34,6 +34,8 @@ impl Recorder {
         }
     }
     pub fn reset(&mut self) {
+        // flush complete histories so that a crash of the process leaves a usable partial trace
+        self.out.flush().unwrap();
         writeln!(self.out, "{{\"ev\":\"reset\"}}").unwrap();
         self.histories += 1;
     }
